@@ -30,6 +30,12 @@ func parseScenario(line string) (scenario, bool) {
 			sc.mode = strings.TrimPrefix(w, "mode=")
 		case strings.HasPrefix(w, "end="):
 			sc.end = strings.TrimPrefix(w, "end=")
+		case strings.HasPrefix(w, "flaky="):
+			fmt.Sscanf(w, "flaky=%d", &sc.flaky)
+		case strings.HasPrefix(w, "fkind="):
+			sc.fkind = strings.TrimPrefix(w, "fkind=")
+		case w == "late=1":
+			sc.late = true
 		}
 	}
 	return sc, len(sc.first) > 0 && sc.kill != "" && sc.end != ""
@@ -59,6 +65,22 @@ func baseScenarios() []scenario {
 		scenario{first: []string{"drop", "drop", "drop"}, kill: "arrived", mode: "local", end: "reconnect"},
 		scenario{first: []string{"ack", "ack"}, kill: "acked", mode: "local", end: "close"},
 		scenario{first: []string{"res", "res", "res"}, kill: "before", mode: "remote", end: "reconnect"},
+		// the replacement connection dies while it connects (the invocation waits for its session)
+		scenario{first: []string{"drop"}, kill: "arrived", mode: "remote", end: "reconnect", flaky: 1},
+		scenario{first: []string{"drop"}, kill: "arrived", mode: "local", end: "reconnect", flaky: 2},
+		scenario{first: []string{"drop"}, kill: "arrived", mode: "remote", end: "reconnect", flaky: 1, fkind: "refuse"},
+		scenario{first: []string{"drop", "drop"}, kill: "arrived", mode: "local", end: "reconnect", flaky: 3, fkind: "refuse"},
+		scenario{first: []string{"res"}, kill: "before", mode: "remote", end: "reconnect", flaky: 2, fkind: "refuse"},
+		scenario{first: []string{"drop"}, kill: "arrived", mode: "remote", end: "close", flaky: 1, fkind: "refuse"},
+		scenario{first: []string{"drop", "ack"}, kill: "acked", mode: "remote", end: "reconnect", flaky: 1},
+		scenario{first: []string{"res"}, kill: "before", mode: "remote", end: "reconnect", flaky: 1},
+		scenario{first: []string{"drop"}, kill: "arrived", mode: "remote", end: "close", flaky: 1},
+		// the failed invocation is held until the connection has been replaced
+		scenario{first: []string{"drop"}, kill: "arrived", mode: "remote", end: "reconnect", late: true},
+		scenario{first: []string{"drop", "drop"}, kill: "arrived", mode: "local", end: "reconnect", late: true},
+		scenario{first: []string{"drop", "ack"}, kill: "acked", mode: "remote", end: "reconnect", late: true},
+		scenario{first: []string{"drop"}, kill: "arrived", mode: "remote", end: "reconnect", flaky: 1, late: true},
+		scenario{first: []string{"res"}, kill: "before", mode: "local", end: "reconnect", late: true},
 	)
 	return out
 }
@@ -91,6 +113,11 @@ func randomScenario(r *hc.RNG) scenario {
 	}
 	if sc.kill == "acked" {
 		sc.first[r.Intn(n)] = "ack"
+	}
+	if sc.kill != "none" {
+		sc.flaky = hc.Pick(r, 0, 0, 0, 1, 1, 2, 3)
+		sc.fkind = hc.Pick(r, "eof", "refuse")
+		sc.late = r.Chance(40)
 	}
 	return sc
 }
@@ -127,10 +154,15 @@ func monitor(sc scenario, o outcome) verdict {
 		}
 		return rs[r]
 	}
+	// wake-up rule: an invocation that failed over on epoch k binds next to epoch k+1, unless the epochs
+	// it skipped were replacement connections that the scenario made fail while they connected
+	curEpoch := 0
+	doomedEp := map[int]bool{}
+	lastFail := map[int]int{}
 	closed, alive := false, true
 	laterDial := func(from int) bool {
 		for _, e := range o.log[from:] {
-			if e.kind == "dial" {
+			if e.kind == "rep" {
 				return true
 			}
 		}
@@ -140,12 +172,27 @@ func monitor(sc scenario, o outcome) verdict {
 		switch e.kind {
 		case "inv":
 			get(e.req).invoked = true
-		case "dial":
-			if e.epoch > 0 {
-				alive = true
-			}
+		case "rep":
+			alive = true
+			curEpoch = e.epoch
 		case "kill":
 			alive = false
+			for j := 1; j <= sc.flaky; j++ {
+				doomedEp[curEpoch+j] = true
+			}
+		case "back":
+			if k, ok := lastFail[e.req]; ok {
+				for j := k + 1; j < e.epoch; j++ {
+					if !doomedEp[j] {
+						fail("missed-wakeup", fmt.Sprintf("request %d failed over on connection %d and was next tried on connection %d although connection %d in between was healthy: the replacement did not wake it", e.req, k, e.epoch, j))
+						break
+					}
+				}
+				delete(lastFail, e.req)
+			}
+			if e.note == "retry" {
+				lastFail[e.req] = e.epoch
+			}
 		case "close":
 			closed = true
 		case "arr":
@@ -208,48 +255,77 @@ func monitor(sc scenario, o outcome) verdict {
 // model trace
 
 func modelTrace(sc scenario, o outcome) (acts []string, summary string) {
-	type ph struct {
-		kind  string // idle wait sent acked done
-		k     int
-		seenK int
-	}
 	n := len(sc.first) + 1
+	log := o.log
+	// pass 1: every return of conn.Invoke ("back") belongs to one binding of the invocation to a
+	// connection epoch; the binding happened after the invocation became eligible (inv / previous
+	// retryable back) and after that epoch began, and before the epoch ended: place it at the later of
+	// the two (a point where the model's guard holds)
+	elig := map[int]int{}
+	repIdx := map[int]int{0: -1}
+	bindsAfter := map[int][]int{} // log index -> requests bound right after it
+	for i, e := range log {
+		switch e.kind {
+		case "inv":
+			elig[e.req] = i
+		case "rep":
+			repIdx[e.epoch] = i
+		case "back":
+			pos, ok := elig[e.req]
+			if !ok {
+				pos = i - 1
+			}
+			if ri, ok := repIdx[e.epoch]; ok && ri > pos {
+				pos = ri
+			}
+			bindsAfter[pos] = append(bindsAfter[pos], e.req)
+			if e.note == "retry" {
+				elig[e.req] = i
+			}
+		}
+	}
+	type ph struct {
+		kind string // idle ready bound sent acked parked done
+		k    int
+	}
 	p := make([]ph, n+100)
 	for i := range p {
 		p[i].kind = "idle"
-		p[i].seenK = -1
 	}
 	acked := map[[2]int]bool{}
-	epochOf := map[int]int{0: 0} // dial index -> model epoch
+	inited := map[int]bool{}
 	epoch, alive, closed := 0, true, false
 	res := make([]string, n)
 	emit := func(f string, a ...any) { acts = append(acts, fmt.Sprintf(f, a...)) }
-	laterDial := func(from int) bool {
-		for _, e := range o.log[from:] {
-			if e.kind == "dial" {
+	laterRep := func(from int) bool {
+		for _, e := range log[from:] {
+			if e.kind == "rep" {
 				return true
 			}
 		}
 		return false
 	}
-	for idx, e := range o.log {
+	doBinds := func(i int) {
+		for _, r := range bindsAfter[i] {
+			emit("bind:%d", r)
+			p[r].kind, p[r].k = "bound", epoch
+		}
+	}
+	doBinds(-1)
+	for idx, e := range log {
 		switch e.kind {
 		case "inv":
 			emit("inv:%d", e.req)
-			p[e.req].kind = "wait"
-		case "dial":
-			if e.epoch > 0 {
-				if alive && !closed {
-					// the client replaced its primary connection on its own: the old one died
-					emit("kill")
-					alive = false
-				}
-				if !alive && !closed {
-					emit("reconnect")
-					epoch++
-					alive = true
-				}
-				epochOf[e.epoch] = epoch
+			p[e.req].kind = "ready"
+		case "rep":
+			if alive && !closed {
+				emit("kill") // the client replaced its primary connection: the old one had died
+				alive = false
+			}
+			if !closed {
+				emit("reconnect")
+				epoch++
+				alive = true
 			}
 		case "kill":
 			if alive {
@@ -262,33 +338,41 @@ func modelTrace(sc scenario, o outcome) (acts []string, summary string) {
 				closed, alive = true, false
 			}
 		case "arr":
-			k, ok := epochOf[e.epoch]
-			if !ok {
-				k = epoch
-			}
-			q := &p[e.req]
-			if q.kind == "sent" && q.k < k {
-				emit("fail:%d", e.req)
-				q.kind = "wait"
+			k := e.epoch
+			if !inited[k] {
+				emit("init")
+				inited[k] = true
 			}
 			emit("arr:%d:%d", e.req, k)
-			if k == epoch && q.kind == "wait" {
-				q.kind, q.k = "sent", k
+			q := &p[e.req]
+			if k == epoch && q.kind == "bound" && q.k == k {
+				q.kind = "sent"
 			}
 		case "ack":
-			emit("ack:%d:%d", e.req, epochOf[e.epoch])
-			acked[[2]int{e.req, epochOf[e.epoch]}] = true
+			emit("ack:%d:%d", e.req, e.epoch)
+			acked[[2]int{e.req, e.epoch}] = true
 		case "res":
-			emit("res:%d:%d", e.req, epochOf[e.epoch])
-			acked[[2]int{e.req, epochOf[e.epoch]}] = true
+			emit("res:%d:%d", e.req, e.epoch)
+			acked[[2]int{e.req, e.epoch}] = true
 		case "seen":
 			q := &p[e.req]
 			if q.kind == "idle" {
-				continue
+				break
 			}
 			emit("seen:%d", e.req)
 			if q.kind == "sent" && acked[[2]int{e.req, q.k}] {
 				q.kind = "acked"
+			}
+		case "back":
+			if e.note == "retry" {
+				if e.epoch == epoch && alive && !closed {
+					// conn.Invoke failed with "connection dead" on the current connection: it has died
+					// (killed while it was connecting, or on its own); the replacement follows
+					emit("kill")
+					alive = false
+				}
+				emit("fail:%d", e.req)
+				p[e.req].kind = "parked"
 			}
 		case "ret":
 			q := &p[e.req]
@@ -298,26 +382,25 @@ func modelTrace(sc scenario, o outcome) (acts []string, summary string) {
 				if e.req < n {
 					res[e.req] = "K"
 				}
-			case closed || q.kind == "acked" || q.kind == "sent":
-				if !closed && alive && q.kind == "acked" && laterDial(idx) {
-					// the connection died on its own (the client dials a replacement right after)
-					emit("kill")
+			case !closed && q.kind == "bound":
+				emit("sendFail:%d", e.req)
+				if e.req < n {
+					res[e.req] = "E"
+				}
+			default:
+				if !closed && alive && q.kind == "acked" && laterRep(idx) {
+					emit("kill") // the connection died on its own (the client replaces it right after)
 					alive = false
 				}
 				emit("retErr:%d", e.req)
 				if e.req < n {
 					res[e.req] = "E"
 				}
-			default:
-				emit("sendFail:%d", e.req)
-				if e.req < n {
-					res[e.req] = "E"
-				}
 			}
 			q.kind = "done"
 		}
+		doBinds(idx)
 	}
-	// canonical observation: per request outcome, arrivals (request:epoch) sorted
 	var arr []string
 	for _, a := range acts {
 		if strings.HasPrefix(a, "arr:") {
@@ -383,9 +466,12 @@ func run(c *hc.Ctx) error {
 					o := w.run(ctx, fmt.Sprintf("s%dt%d", i, try), scs[i])
 					r = result{sc: scs[i], o: o, v: monitor(scs[i], o), runs: try + 1}
 					r.acts, r.sum = modelTrace(scs[i], o)
-					if !r.v.anomaly {
+					if !r.v.anomaly || genuineTimeouts.Load() >= 3 {
 						break
 					}
+				}
+				if r.v.anomaly {
+					genuineTimeouts.Add(1) // persisted over the re-runs (or the verdict is already settled)
 				}
 				results[i] = r
 			}
